@@ -123,6 +123,9 @@ impl TimeStrategy {
     }
 
     pub fn should_stop(&mut self, nodes_visited: u64) -> bool {
+        #[cfg(jgilchrist_tcheran_verif)]
+        crate::engine::util::verif::note_nodes(nodes_visited);
+
         if nodes_visited < self.next_check_at {
             return false;
         }
